@@ -184,11 +184,15 @@ func (p *Program) structFields(visit func(key string, typ string, v *types.Var, 
 // that struct wherever a "Type.field" name is formed.
 var groupOwner = map[types.Type]string{}
 
+// sharedGroupField: fields of a reference type that T now embeds (see resolveFieldGroups) ↦ T's embedding field.
+var sharedGroupField = map[*types.Var]*types.Var{}
+
 // resolveFieldGroups: fields of a reference struct T that are gone, and a new field g of T whose type is a struct S that is
 // not part of the reference tree and holds fields of those names and types, are the same fields grouped into a sub-struct
 // (embedded or named). g is transparent: T.g.f is called T.f in every engine, S answers to T's name.
 func (p *Program) resolveFieldGroups() {
 	groupOwner = map[types.Type]string{}
+	sharedGroupField = map[*types.Var]*types.Var{}
 	present := map[string]bool{}
 	type fr struct {
 		key string
@@ -217,6 +221,7 @@ func (p *Program) resolveFieldGroups() {
 		if !ok {
 			continue
 		}
+		knownType := false
 		if n, ok := f.v.Type().(*types.Named); ok {
 			if n.Obj().Pkg() == nil || p.Pkgs[n.Obj().Pkg().Path()] == nil {
 				continue // a type of another module or the standard library is not a grouping
@@ -225,27 +230,59 @@ func (p *Program) resolveFieldGroups() {
 			if n.Obj().Pkg().Path() != modPath {
 				name = n.Obj().Pkg().Name() + "." + name
 			}
-			if _, known := knownTypes[name]; known {
-				continue
+			_, knownType = knownTypes[name]
+		}
+		// every field of S is a gone field of T: by name and type, or — for a group whose fields were renamed on the way —
+		// by a type that identifies exactly one gone field of T and one field of S
+		goneByType := map[string][]string{}
+		for k, it := range knownFields {
+			if strings.HasPrefix(k, owner+".") && !present[k] && strings.Count(k[len(owner)+1:], ".") == 0 {
+				goneByType[it[strings.Index(it, "|")+1:]] = append(goneByType[it[strings.Index(it, "|")+1:]], k[len(owner)+1:])
 			}
 		}
-		matched, total := 0, st.NumFields()
+		sByType := map[string]int{}
 		for i := 0; i < st.NumFields(); i++ {
-			old, ok := knownFields[owner+"."+st.Field(i).Name()]
-			if ok && !present[owner+"."+st.Field(i).Name()] && old[strings.Index(old, "|")+1:] == refTypeString(st.Field(i).Type()) {
+			sByType[refTypeString(st.Field(i).Type())]++
+		}
+		matched, total := 0, st.NumFields()
+		renames := map[*types.Var]string{}
+		for i := 0; i < st.NumFields(); i++ {
+			fv := st.Field(i)
+			ts := refTypeString(fv.Type())
+			old, ok := knownFields[owner+"."+fv.Name()]
+			if ok && !present[owner+"."+fv.Name()] && old[strings.Index(old, "|")+1:] == ts {
+				matched++
+				continue
+			}
+			if !knownType && len(goneByType[ts]) == 1 && sByType[ts] == 1 {
+				renames[fv] = goneByType[ts][0]
 				matched++
 			}
 		}
 		if matched == 0 || matched != total {
 			continue
 		}
+		if knownType && len(renames) > 0 {
+			continue
+		}
+		for fv, oldName := range renames {
+			fieldAlias[fv] = oldName
+		}
 		fieldAlias[f.v] = ""
 		short := owner
 		if i := strings.LastIndex(short, "."); i >= 0 {
 			short = short[i+1:]
 		}
-		groupOwner[f.v.Type()] = short
-		groupOwner[st] = short
+		if knownType {
+			// a type of the reference tree that is also used on its own (connConfig): only the path through T's field is
+			// T's; other values of the type keep their own names
+			for i := 0; i < st.NumFields(); i++ {
+				sharedGroupField[st.Field(i)] = f.v
+			}
+		} else {
+			groupOwner[f.v.Type()] = short
+			groupOwner[st] = short
+		}
 		p.RenameNotes = append(p.RenameNotes, fmt.Sprintf("fields of %s were grouped into %s; they are analysed under their reference names", owner, f.key))
 	}
 	sort.Strings(p.RenameNotes)
